@@ -1287,3 +1287,100 @@ Section AsML.
     Qed.
   End Override.
 End AsML.
+
+(* ================= which definition of as_matrix a class resolves to =================
+   The dispatch of Model/AsMatrix.v `as_matrix`, class by class, named as tools/translate/tables.py names the
+   definitions found by Python's method resolution ("<defining class>:<qualified name>").  Props/C04.v ties it
+   to the table regenerated from the imported package on every run (am_resolution_ok gen_method_names
+   gen_methods): a new, a removed or a moved as_matrix override in the source breaks that tie. *)
+Inductive am_def :=
+| AmGeneric | AmAddition | AmLazyInverse | AmIdentity | AmHomothety | AmBlockRow | AmBlockDiagonal | AmBlockColumn
+| AmDiagonal | AmRavelOrReshape | AmToeplitz.
+Definition am_of_cls (c : cls) : am_def :=
+  match c with
+  | CAddition => AmAddition
+  | CAbstractLazyInverse | CInverse | CAbstractLazyInverseOrthogonal | CQURotationTranspose => AmLazyInverse
+  | CIdentity => AmIdentity
+  | CHomothety => AmHomothety
+  | CBlockRow => AmBlockRow
+  | CBlockDiagonal => AmBlockDiagonal
+  | CBlockColumn => AmBlockColumn
+  | CDiagonal | CDiagonalInverse => AmDiagonal      (* MRO of DiagonalInverseOperator: DiagonalOperator first *)
+  | CAbstractRavelOrReshape | CRavel | CReshape => AmRavelOrReshape
+  | CToeplitz => AmToeplitz
+  | _ => AmGeneric                                  (* lazy transposes, products, every other leaf class *)
+  end.
+Definition am_owner (d : am_def) : string :=
+  match d with
+  | AmGeneric => "AbstractLinearOperator:AbstractLinearOperator.as_matrix"
+  | AmAddition => "AdditionOperator:AdditionOperator.as_matrix"
+  | AmLazyInverse => "AbstractLazyInverseOperator:AbstractLazyInverseOperator.as_matrix"
+  | AmIdentity => "IdentityOperator:IdentityOperator.as_matrix"
+  | AmHomothety => "HomothetyOperator:HomothetyOperator.as_matrix"
+  | AmBlockRow => "BlockRowOperator:BlockRowOperator.as_matrix"
+  | AmBlockDiagonal => "BlockDiagonalOperator:BlockDiagonalOperator.as_matrix"
+  | AmBlockColumn => "BlockColumnOperator:BlockColumnOperator.as_matrix"
+  | AmDiagonal => "DiagonalOperator:DiagonalOperator.as_matrix"
+  | AmRavelOrReshape => "AbstractRavelOrReshapeOperator:AbstractRavelOrReshapeOperator.as_matrix"
+  | AmToeplitz => "SymmetricBandToeplitzOperator:SymmetricBandToeplitzOperator.as_matrix"
+  end%string.
+(* position of a method name in the header of the regenerated table *)
+Fixpoint name_index (n : string) (names : list string) : option nat :=
+  match names with
+  | [] => None
+  | x :: r => if String.eqb x n then Some 0 else option_map S (name_index n r)
+  end.
+(* every class of the table resolves as_matrix to the definition the model dispatches to *)
+Definition am_resolution_ok (names : list string) (methods : list (cls * list string)) : bool :=
+  match name_index "as_matrix"%string names with
+  | None => false
+  | Some k =>
+      negb (Nat.eqb (List.length methods) 0) &&
+      forallb (fun p => String.eqb (nth k (snd p) ""%string) (am_owner (am_of_cls (fst p)))) methods
+  end.
+
+Section Dispatch.
+  Variable K : Type.
+  Variables (k0 k1 : K) (kadd kmul : K -> K -> K).
+  Variable leafsem : op K -> value K -> option (value K).
+  Variable leaf_override : op K -> option (mat K).
+  Variable minv : mat K -> option (mat K).
+  Notation asm := (as_matrix K k0 k1 kadd kmul leafsem leaf_override minv).
+  Notation gen := (as_matrix_generic K k0 k1 kadd kmul leafsem).
+
+  (* a class that resolves to AbstractLinearOperator.as_matrix gets the generic loop in the model *)
+  Lemma generic_dispatch : forall e : op K, am_of_cls (cls_of e) = AmGeneric -> asm e = gen e.
+  Proof.
+    intros [i c si so p|i w x|i s|i k s|i l|i l|i b td l] H; cbn in H; try discriminate.
+    - destruct c; try discriminate; reflexivity.
+    - destruct w; try discriminate; reflexivity.
+    - reflexivity.
+    - destruct b; discriminate.
+  Qed.
+  (* ... and the classes with an override of their own get that override *)
+  Lemma override_dispatch : forall e : op K,
+    match e with
+    | Ident _ _ => am_of_cls (cls_of e) = AmIdentity /\ asm e = Some (eye K k0 k1 (in_size e))
+    | Homoth _ k _ => am_of_cls (cls_of e) = AmHomothety /\ asm e = Some (mscale K kmul k (eye K k0 k1 (in_size e)))
+    | AddOp _ l => am_of_cls (cls_of e) = AmAddition /\ asm e = obind (omapl asm l) (msum K kadd)
+    | Block _ BRow _ l => am_of_cls (cls_of e) = AmBlockRow /\ asm e = obind (omapl asm l) (hstack K)
+    | Block _ BDiag _ l => am_of_cls (cls_of e) = AmBlockDiagonal /\ asm e = obind (omapl asm l) (fun ms => Some (block_diag K k0 ms))
+    | Block _ BCol _ l => am_of_cls (cls_of e) = AmBlockColumn /\ asm e = obind (omapl asm l) (vstack K)
+    | Wrap _ WInverse x | Wrap _ WQURotT x => am_of_cls (cls_of e) = AmLazyInverse /\ asm e = obind (asm x) minv
+    | Wrap _ WDiagInv _ => am_of_cls (cls_of e) = AmDiagonal /\ asm e = leaf_override e
+    | Prim _ CDiagonal _ _ _ => am_of_cls (cls_of e) = AmDiagonal /\ asm e = leaf_override e
+    | Prim _ CToeplitz _ _ _ => am_of_cls (cls_of e) = AmToeplitz /\ asm e = leaf_override e
+    | Prim _ CRavel _ _ _ | Prim _ CReshape _ _ _ => am_of_cls (cls_of e) = AmRavelOrReshape /\ asm e = Some (eye K k0 k1 (in_size e))
+    | _ => True
+    end.
+  Proof.
+    intros [i c si so p|i w x|i s|i k s|i l|i l|i b td l].
+    - destruct c; try exact I; split; reflexivity.
+    - destruct w; try exact I; split; reflexivity.
+    - split; reflexivity.
+    - split; reflexivity.
+    - exact I.
+    - split; [reflexivity|]. apply (as_matrix_add K k0 k1 kadd kmul leafsem leaf_override minv).
+    - destruct b; (split; [reflexivity|]); rewrite (as_matrix_block K k0 k1 kadd kmul leafsem leaf_override minv); reflexivity.
+  Qed.
+End Dispatch.
